@@ -114,7 +114,10 @@ class BoolCFGLM(LM):
             AssertionError: If context contains out-of-vocabulary tokens
         """
         assert set(context) <= self.V, f"OOVs detected: {set(context) - self.V}"
-        p = self.model.next_token_weights(self.model.chart(context)).trim()
+        if hasattr(self.model, "next_token_weights"):
+            p = self.model.next_token_weights(self.model.chart(context)).trim()
+        else:  # alg='cky': CKYLM wraps the incremental CKY parser
+            p = self.model.model.p_next(tuple(context)).trim()
         return Float.chart({w: 1 for w in p})
 
     def __call__(self, context):
